@@ -206,6 +206,16 @@ def body_shapes(n, tier):
     if k >= 1:
         yield ("rich-nested2", "\twhile (n)\n\t{\n\t\tif (p)\n\t\t{\n" + "".join("\t\t\t" + rich[(i + 5) % len(rich)] + "\n" for i in range(k))
                + "\t\t}\n\t}\n\treturn (n);\n")
+    # lines that hold more than one statement of the engine: an instruction followed by a comment, two instructions,
+    # a declaration with a comment, an empty statement after an instruction (each is one *line* of the body)
+    if n >= 4:
+        for k_ in (1, 3):
+            yield (f"odd-eolcomment{k_}", "\tn = n + 1; // note\n" * k_ + st * (n - 1 - k_) + "\treturn (n);\n")
+            yield (f"odd-eolblock{k_}", "\tn = n + 1; /* note */\n" * k_ + st * (n - 1 - k_) + "\treturn (n);\n")
+            yield (f"odd-twoinstr{k_}", "\tn = n + 1; n = n + 2;\n" * k_ + st * (n - 1 - k_) + "\treturn (n);\n")
+            yield (f"odd-emptystmt{k_}", "\tn = n + 1;;\n" * k_ + st * (n - 1 - k_) + "\treturn (n);\n")
+        yield ("odd-declcomment", "\tint\taa; // counter\n\n" + st * (n - 3) + "\treturn (n);\n")
+        yield ("odd-last-eolcomment", st * (n - 1) + "\treturn (n); // done\n")
     pairs, rest = divmod(n - 1, 4)
     if pairs >= 1:
         yield ("braceless-ifelse", ("\tif (n)\n\t\tn--;\n\telse\n\t\tn++;\n" * pairs) + st * rest + "\treturn (n);\n")
@@ -395,7 +405,7 @@ def judge(task):
             out.append(("missing" if not hit else "wrong-line", f"{n} body lines, closing brace line {where}: {hit or errs[:3]}"))
         if n <= 25 and hit:
             out.append(("spurious", f"{n} body lines: {hit}"))
-        if n <= 25 and [d for d in errs if d[1] != "TOO_MANY_LINES"]:
+        if n <= 25 and [d for d in errs if d[1] != "TOO_MANY_LINES"] and ":odd-" not in label and "odd-" not in label:
             out.append(("other-error-at-limit:" + errs[0][1], f"{errs[:3]}"))
     elif kind == "funcs":
         hit = sorted(d[2] for d in errs if d[1] == "TOO_MANY_FUNCS")
